@@ -632,9 +632,10 @@ func genWitnessSteps(d *dg.Design, m *dg.Method, pv, rv *dg.Val, mk func(desc, s
 			return &dg.Val{K: "map", Keys: []*dg.Val{sv("k")}, Elems: []*dg.Val{elem}}
 		}
 		mk("valid", "", "request", obj("map_ro", one(obj("a", sv("x"), "b", iv(1)))), rv)
-		mkRaw("witness:map-value-missing-required", ".map_ro{val0}.a", obj("map_ro", one(obj("b", iv(1)))), "POST", "/wit/mapro", `{"map_ro":{"k":{"b":1}}}`)
+		mkRaw("raw:delete-key", ".map_ro{val0}.a", obj("map_ro", one(obj("b", iv(1)))), "POST", "/wit/mapro", `{"map_ro":{"k":{"b":1}}}`)
+		mkRaw("witness:map-of-maps-missing-required", ".mapmap_ro{val0}{val0}.a", obj("mapmap_ro", one(one(obj("b", iv(1))))), "POST", "/wit/mapro", `{"mapmap_ro":{"k":{"k":{"b":1}}}}`)
 		mkRaw("witness:map-of-arrays-missing-required", ".maparr_ro{val0}[0].a", obj("maparr_ro", one(&dg.Val{K: "array", Elems: []*dg.Val{obj("b", iv(1))}})), "POST", "/wit/mapro", `{"maparr_ro":{"k":[{"b":1}]}}`)
-		mkRaw("witness:array-of-maps-missing-required", ".arrmap_ro[0]{val0}.a", obj("arrmap_ro", &dg.Val{K: "array", Elems: []*dg.Val{one(obj("b", iv(1)))}}), "POST", "/wit/mapro", `{"arrmap_ro":[{"k":{"b":1}}]}`)
+		mkRaw("raw:delete-key", ".arrmap_ro[0]{val0}.a", obj("arrmap_ro", &dg.Val{K: "array", Elems: []*dg.Val{one(obj("b", iv(1)))}}), "POST", "/wit/mapro", `{"arrmap_ro":[{"k":{"b":1}}]}`)
 		mkRaw("raw:delete-key", ".arr_ro[0].a", obj("arr_ro", &dg.Val{K: "array", Elems: []*dg.Val{obj("b", iv(1))}}), "POST", "/wit/mapro", `{"arr_ro":[{"b":1}]}`)
 	case "w_cookie":
 		uv := func(u uint64) *dg.Val { return &dg.Val{K: "uint", U: u} }
@@ -756,8 +757,8 @@ func checkC04(res *vh.Result, si *stepInfo, ob *rt.Obs, in map[string]any) {
 				if si.DecodeFail {
 					sig = "undecodable-request-no-response"
 				}
-				if len(si.Expected) == 1 && si.Expected[0].Kw == "required" && mapValueRequiredOnly(si.Design, si.M.Payload, si.Expected[0].Path) {
-					sig = "map-value-required-only-unvalidated"
+				if len(si.Expected) == 1 && si.Expected[0].Kw == "required" && mapNestedCollectionRequiredOnly(si.Design, si.M.Payload, si.Expected[0].Path) {
+					sig = "map-nested-collection-required-only-unvalidated"
 				}
 				failSig(res, sig, "the server answered nothing (it crashed) on a request that violates "+violString(si.Expected), in)
 				return
